@@ -75,6 +75,14 @@ impl CountMinSketch {
     pub(crate) fn clear(&mut self) {
         self.rows.iter_mut().for_each(|row| row.clear())
     }
+
+    #[cfg(feature = "verif-hooks")]
+    pub(crate) fn verif_dump(&self, out: &mut alloc::vec::Vec<u8>) {
+        out.extend_from_slice(&self.mask.to_le_bytes());
+        for r in self.rows.iter() {
+            out.extend_from_slice(r.verif_bytes());
+        }
+    }
 }
 
 #[cfg(test)]
